@@ -409,7 +409,8 @@ func (c *compiler) evalAccessIndex(left, index interface{}, node *ast.IndexExpre
 
 func (c *compiler) evalHashLiteral(node *ast.HashLiteral) (interface{}, error) {
 	m := map[string]interface{}{}
-	for ke, ve := range node.Pairs {
+	for _, ke := range node.Order {
+		ve := node.Pairs[ke]
 		v, err := c.evalExpression(ve)
 		if err != nil {
 			return nil, err
